@@ -101,6 +101,12 @@ def s_mul(a, b):
     a, b = lift(a), lift(b)
     if a.is_q and b.is_q:
         return Sym.q(a.qv * b.qv)
+    if (a.is_q and a.qv == 0) or (b.is_q and b.qv == 0):
+        return Sym.q(0)
+    if a.is_q and a.qv == 1:
+        return b
+    if b.is_q and b.qv == 1:
+        return a
     return Sym(("mul", a, b))
 
 
@@ -573,6 +579,21 @@ class Interp:
 
     def binop(self, op, a, b):
         from . import typed as _t
+
+        if isinstance(a, NDArray) or isinstance(b, NDArray):
+            def ew(x, y):
+                if isinstance(x, list) and isinstance(y, list):
+                    if len(x) != len(y):
+                        raise Refuse("elementwise operation on arrays of different shapes")
+                    return [ew(p, q) for p, q in zip(x, y)]
+                if isinstance(x, list):
+                    return [ew(p, y) for p in x]
+                if isinstance(y, list):
+                    return [ew(x, q) for q in y]
+                return self.binop(op, x, y)
+            xa = a.data if isinstance(a, NDArray) else a
+            ya = b.data if isinstance(b, NDArray) else b
+            return NDArray(ew(xa, ya))
 
         if isinstance(a, _t.TE) or isinstance(b, _t.TE):
             if isinstance(op, ast.Add):
